@@ -45,7 +45,8 @@ st_feature_settings(families=("nldf","nlof","sdmx"), normalizers=("default","rea
 Builders
 --------
 build_settings(spec)               any spec with a "cls" key (incl. FeatureSettings)
-build_feature_settings(spec)       FeatureSettings incl. normalisers
+build_feature_settings(spec)       FeatureSettings incl. normalisers (kind "reasonable" falls back to the default list and
+                                   sets fs._verif_norm_fallback = True if the tree raises NotImplementedError)
 ctor_args(spec) -> (cls_name, [[arg_name, value], ...])   positional constructor arguments
 build_from_ctor(cls_name, args)    call the constructor with (possibly mutated) arguments
 
@@ -259,11 +260,14 @@ def st_feature_settings(draw, families=("nldf", "nlof", "sdmx"), normalizers=("d
 # bookkeeping re-typed from the documentation
 
 def _dots_usps(l1_specs, dots, usp0):
+    """Dot products of l=1 integrals: every nonlocal vector integral carries the scaling of the rho_mult factor b(r')
+    (nldf.rst: "G has the same uniform scaling behavior as b"), the semilocal density gradient (index -1) does not."""
     out = []
     for j, k in dots:
         s1 = "grad_rho" if j == -1 else l1_specs[j]
         s2 = "grad_rho" if k == -1 else l1_specs[k]
-        out.append(usp0 + _USPS[s1] + _USPS[s2])
+        nvec = (j != -1) + (k != -1)
+        out.append(nvec * usp0 + _USPS[s1] + _USPS[s2])
     return out
 
 
@@ -447,8 +451,14 @@ def build_feature_settings(spec):
         lst = [None if n is None else build_normalizer(n) for n in norm["list"]]
         kw["normalizers"] = FeatNormalizerList(lst, slmode=spec["sl"]["mode"])
     fs = S.FeatureSettings(**kw)
+    fs._verif_norm_fallback = False
     if norm["kind"] == "reasonable":
-        fs.assign_reasonable_normalizer()
+        try:
+            fs.assign_reasonable_normalizer()
+        except NotImplementedError:
+            # reasonable_normalizer_available() mirrors the tree the generator was written for; on a tree where the
+            # recommendation is not implemented for this combination the default (identity) normalisers are kept
+            fs._verif_norm_fallback = True
     return fs
 
 
